@@ -465,6 +465,18 @@ def drive_hot(ctx, build, items, end='complete', mk_item=None):
     buf = io.StringIO()
     escaped = None
     WORK[0] = 0
+    sample = None
+    manager = ctx.extra.get('store')
+    if manager is not None:
+        seen = ctx.extra.setdefault('states', set())
+
+        def sample():
+            try:
+                st = manager.states
+                if st:
+                    seen.add(hash(tuple([bytes(x.state) for x in st[0].states])))
+            except Exception:
+                pass
     try:
         with contextlib.redirect_stdout(buf):
             try:
@@ -478,6 +490,8 @@ def drive_hot(ctx, build, items, end='complete', mk_item=None):
                     if t > ctx.now:
                         ctx.now = t
                     subject.on_next(mk_item(it) if mk_item else it)
+                    if sample is not None:
+                        sample()
                     if final.terminal is not None:
                         break
                 ctx.seq += 1
